@@ -242,6 +242,10 @@ pub fn c09(g: &mut Gen) {
     lines.push("sp - builder 5 6 0 :".to_string());
     lines.push("sp - builder 5 5 0 : t0 t1 t2 t3 t4 t5 c".to_string());
     lines.push(format!("rl - builder : s5,{} s{},2 s3,1", MAXU - 4, MAXU - 1));
+    // legal runs at the very end of the domain are accepted: ending exactly at usize::MAX, empty at usize::MAX, full length
+    lines.push(format!("rl - builder : s3,1 s{},7 c", MAXU - 7));
+    lines.push(format!("rl - builder : s{},0 s0,{} c", MAXU, MAXU));
+    lines.push(format!("rl - builder : s0,{} s{},1 c", MAXU - 1, MAXU - 1));
     g.group(lines);
 }
 
